@@ -406,6 +406,146 @@ void narrow_counts(mc::Reporter& r, char const* sname, std::uint64_t& ev)
     }
 }
 
+// ---------------------------------------------------------------------------------------------------- part D
+// floating-point elements whose BIT PATTERN matters (+0 / -0 compare equal, NaN compares unequal to itself): the writing
+// and comparing algorithms at run time, in constant evaluation and on std (added after seeded breakages
+// c06_equal_memcmp_floating and c13_fill_memset_negative_zero - a run-time memset(0) for `value == T{}` lost the sign of
+// -0.0; C13's own kernels use integer elements).  Enumerated: T in {float, double} x every sequence of length 0..3
+// over {+0, -0, 1.5, NaN} x value in the same set x {fill, fill_n, copy, copy_n, copy_backward, move, replace, remove
+// (prefix kept), count, find, equal with itself / with the sign-flipped sequence}; outputs compared bit for bit.
+template <typename T>
+constexpr T fval(int k)
+{
+    return k == 0 ? T(0) : (k == 1 ? -T(0) : (k == 2 ? T(1.5) : std::numeric_limits<T>::quiet_NaN()));
+}
+template <typename T>
+constexpr unsigned long long fbits(T v)
+{
+    if constexpr (sizeof(T) == 4) {
+        return __builtin_bit_cast(unsigned, v);
+    } else {
+        return __builtin_bit_cast(unsigned long long, v);
+    }
+}
+constexpr std::size_t NFOP = 12;
+constexpr char const* fop_names[NFOP] = {"fill(first,last,value)", "fill_n(first,count,value)", "copy(first,last,result)", "copy_n(first,count,result)", "copy_backward(first,last,d_last)",
+    "move(first,last,result)", "replace(first,last,old,new)", "remove(first,last,value)", "count(first,last,value)", "find(first,last,value)", "equal(first1,last1,first2)", "equal(first1,last1,first2) sign-flipped"};
+
+// digest of the outcome of operation `op` on the sequence coded by `code` (base 4, length n) with value index vi
+template <typename L, typename T>
+constexpr unsigned long long frun(std::size_t op, std::size_t n, std::size_t code, int vi)
+{
+    T a[4] = {fval<T>(int(code % 4)), fval<T>(int((code / 4) % 4)), fval<T>(int((code / 16) % 4)), T(9)};
+    T b[4] = {T(7), T(7), T(7), T(7)};
+    T const v = fval<T>(vi);
+    unsigned long long h = 0;
+    auto mix             = [&](unsigned long long x) { h = h * 1099511628211ULL + x + 1; };
+    switch (op) {
+    case 0: L::fill(b, b + n, v); break;
+    case 1: L::fill_n(b, n, v); break;
+    case 2: L::copy(a, a + n, b); break;
+    case 3: L::copy_n(a, n, b); break;
+    case 4: L::copy_backward(a, a + n, b + n); break;
+    case 5: L::move(a, a + n, b); break;
+    case 6:
+        L::replace(a, a + n, v, T(2.5));
+        for (std::size_t i = 0; i < n; ++i) { b[i] = a[i]; }
+        break;
+    case 7: {
+        auto* e = L::remove(a, a + n, v);
+        mix(static_cast<unsigned long long>(e - a));
+        for (auto* p = a; p != e; ++p) { mix(fbits(*p)); }
+        return h;
+    }
+    case 8: return static_cast<unsigned long long>(L::count(a, a + n, v));
+    case 9: return static_cast<unsigned long long>(L::find(a, a + n, v) - a);
+    case 10: {
+        T c[4] = {a[0], a[1], a[2], a[3]};
+        return static_cast<unsigned long long>(L::equal(a, a + n, c));
+    }
+    default: {
+        T c[4] = {-a[0], -a[1], -a[2], a[3]};
+        return static_cast<unsigned long long>(L::equal(a, a + n, c));
+    }
+    }
+    for (std::size_t i = 0; i < 4; ++i) { mix(fbits(b[i])); }
+    return h;
+}
+struct EtlF {
+    template <typename... A> static constexpr auto fill(A... a) { return etl::fill(a...); }
+    template <typename... A> static constexpr auto fill_n(A... a) { return etl::fill_n(a...); }
+    template <typename... A> static constexpr auto copy(A... a) { return etl::copy(a...); }
+    template <typename... A> static constexpr auto copy_n(A... a) { return etl::copy_n(a...); }
+    template <typename... A> static constexpr auto copy_backward(A... a) { return etl::copy_backward(a...); }
+    template <typename... A> static constexpr auto move(A... a) { return etl::move(a...); }
+    template <typename... A> static constexpr auto replace(A... a) { return etl::replace(a...); }
+    template <typename... A> static constexpr auto remove(A... a) { return etl::remove(a...); }
+    template <typename... A> static constexpr auto count(A... a) { return etl::count(a...); }
+    template <typename... A> static constexpr auto find(A... a) { return etl::find(a...); }
+    template <typename... A> static constexpr auto equal(A... a) { return etl::equal(a...); }
+};
+struct StdF {
+    template <typename... A> static constexpr auto fill(A... a) { return std::fill(a...); }
+    template <typename... A> static constexpr auto fill_n(A... a) { return std::fill_n(a...); }
+    template <typename... A> static constexpr auto copy(A... a) { return std::copy(a...); }
+    template <typename... A> static constexpr auto copy_n(A... a) { return std::copy_n(a...); }
+    template <typename... A> static constexpr auto copy_backward(A... a) { return std::copy_backward(a...); }
+    template <typename... A> static constexpr auto move(A... a) { return std::move(a...); }
+    template <typename... A> static constexpr auto replace(A... a) { return std::replace(a...); }
+    template <typename... A> static constexpr auto remove(A... a) { return std::remove(a...); }
+    template <typename... A> static constexpr auto count(A... a) { return std::count(a...); }
+    template <typename... A> static constexpr auto find(A... a) { return std::find(a...); }
+    template <typename... A> static constexpr auto equal(A... a) { return std::equal(a...); }
+};
+constexpr std::size_t NFSEQ = 1 + 4 + 16 + 64; // (n, code) pairs
+constexpr void fseq_at(std::size_t k, std::size_t& n, std::size_t& code)
+{
+    if (k == 0) { n = 0, code = 0; return; }
+    --k;
+    if (k < 4) { n = 1, code = k; return; }
+    k -= 4;
+    if (k < 16) { n = 2, code = k; return; }
+    n = 3, code = k - 16;
+}
+template <typename T>
+constexpr auto ftable()
+{
+    std::array<unsigned long long, NFOP * NFSEQ * 4> t{};
+    for (std::size_t op = 0; op < NFOP; ++op) {
+        for (std::size_t k = 0; k < NFSEQ; ++k) {
+            std::size_t n = 0, code = 0;
+            fseq_at(k, n, code);
+            for (int vi = 0; vi < 4; ++vi) { t[(op * NFSEQ + k) * 4 + std::size_t(vi)] = frun<EtlF, T>(op, n, code, vi); }
+        }
+    }
+    return t;
+}
+template <typename T>
+void floating_bits(mc::Reporter& r, char const* tn, std::uint64_t& ev)
+{
+    static constexpr auto ct = ftable<T>();
+    for (std::size_t op = 0; op < NFOP; ++op) {
+        for (std::size_t k = 0; k < NFSEQ; ++k) {
+            std::size_t n = 0, code = 0;
+            fseq_at(k, n, code);
+            for (int vi = 0; vi < 4; ++vi) {
+                volatile std::size_t vn = n, vc = code;
+                volatile int vv          = vi;
+                auto const e = frun<EtlF, T>(op, vn, vc, vv);
+                auto const s = frun<StdF, T>(op, vn, vc, vv);
+                auto const c = ct[(op * NFSEQ + k) * 4 + std::size_t(vi)];
+                ev += 2;
+                r.outcome(s);
+                std::string const cls  = cat(tn, vi == 1 ? "+negative_zero_value" : (vi == 3 ? "+nan_value" : ""));
+                std::string const kase = cat(fop_names[op], " on ", tn, " sequence #", code, " of length ", n, " over {+0,-0,1.5,NaN}, value index ", vi);
+                if (e != s) { r.violation("C06", fop_names[op], cat(cls, "+bit_pattern"), kase, "run-time result (bit for bit) differs from std"); }
+                if (c != s) { r.violation("C06", fop_names[op], cat(cls, "+bit_pattern+constant_evaluation"), kase, "constant-evaluated result (bit for bit) differs from std"); }
+                if (c != e) { r.violation("C13", fop_names[op], cat(cls, "+bit_pattern"), kase, "constant evaluation and run time disagree (bit for bit)"); }
+            }
+        }
+    }
+}
+
 } // namespace
 
 int main(int argc, char** argv)
@@ -437,6 +577,14 @@ int main(int argc, char** argv)
         numeric<unsigned char, int>(r, "unsigned char", "int", ev);
         numeric<int, float>(r, "int", "float", ev);
         numeric<Acc, int>(r, "Acc", "int", ev);
+        r.count("evaluations", ev);
+        r.count("distinct_nontrivial", ev);
+    });
+    m.job("mixed/two-range/floating-bit-patterns", both, [](mc::Reporter& r) {
+        std::uint64_t ev = 0;
+        floating_bits<float>(r, "float", ev);
+        floating_bits<double>(r, "double", ev);
+        r.sample("fill/fill_n/copy/copy_n/copy_backward/move/replace/remove/count/find/equal on float and double sequences over {+0,-0,1.5,NaN}: run time, constexpr table and std, compared bit for bit");
         r.count("evaluations", ev);
         r.count("distinct_nontrivial", ev);
     });
